@@ -181,7 +181,9 @@ func (k Keeper) AddDeposit(ctx sdk.Context, receiverAddr, senderAddr sdk.AccAddr
 			stream, _ = k.GetStream(ctx, receiverAddr, senderAddr)
 		}
 
-		// stream expired or new. Calculate from now
+		// stream expired or new. Calculate from now: the flow restarts now, so the
+		// period during which the stream held no deposit must not be paid for
+		stream.LastOutflowTime = nowTime
 		depositZeroTime = nowTime.Add(time.Second * time.Duration(durationExtension))
 	} else {
 		// stream not expired. Add to current deposit zero time
